@@ -569,6 +569,12 @@ func (w *watch) watch(fsw *fsnotify.Watcher, m *sync.Mutex, refresh func() error
 				w.update(dirErrors)
 			}
 			_ = refresh()
+			// A Spec directory which is not watched (removed or missing a moment
+			// ago) might exist again by now. What we have just loaded from it
+			// could change without us noticing: watch it and rescan.
+			if w.update(dirErrors) {
+				_ = refresh()
+			}
 			m.Unlock()
 
 		case _, ok := <-watch.Errors:
